@@ -313,3 +313,80 @@ pub fn run_stdin() -> Result<(), String> {
     out.flush().ok();
     Ok(())
 }
+
+
+/// `harness api2`: two independent contexts. Lines are `@0 <stmt>` / `@1 <stmt>` (no begin/end: use
+/// topen/tclose). Default: one thread, lines executed in file order (an interleaving). With
+/// API2_THREADS=1 the two contexts' lines run concurrently on two OS threads (each context on its own
+/// thread, random yields), outputs are still reported in file order.
+pub fn run_stdin2() -> Result<(), String> {
+    let threads = std::env::var("API2_THREADS").is_ok();
+    let stdin = std::io::stdin();
+    let stdout = std::io::stdout();
+    let mut out = std::io::BufWriter::new(stdout.lock());
+    let mut cur: Vec<(usize, Vec<String>)> = vec![];
+    let mut flush = |cur: &mut Vec<(usize, Vec<String>)>, sep: bool, out: &mut dyn Write| -> Result<(), String> {
+        if !cur.is_empty() {
+            let lines = std::mem::take(cur);
+            let n = lines.len();
+            let (tx, rx) = std::sync::mpsc::channel();
+            std::thread::Builder::new().stack_size(256 << 20).spawn(move || {
+                let mut outs = vec![String::new(); lines.len()];
+                if !threads {
+                    let mut m = [Api::new(), Api::new()];
+                    for (j, (k, ws)) in lines.iter().enumerate() {
+                        let w: Vec<&str> = ws.iter().map(|s| s.as_str()).collect();
+                        let a = &mut m[*k];
+                        outs[j] = if a.dead { "dead".into() } else {
+                            match catch_unwind(AssertUnwindSafe(|| a.exec_line(&w))) {
+                                Ok(o) => format!("{o}{}", a.drain_cb()),
+                                Err(p) => { a.dead = true; format!("PANIC {}", classify(&crate::panic_message(&*p))) }
+                            }
+                        };
+                    }
+                } else {
+                    let mut hs = vec![];
+                    for k in 0..2usize {
+                        let mine: Vec<(usize, Vec<String>)> = lines.iter().enumerate().filter(|(_, l)| l.0 == k).map(|(j, l)| (j, l.1.clone())).collect();
+                        hs.push(std::thread::Builder::new().stack_size(64 << 20).spawn(move || {
+                            let mut a = Api::new();
+                            let mut res = vec![];
+                            let mut x: u64 = 88172645463325252 ^ (k as u64 + 1);
+                            for (j, ws) in mine {
+                                x ^= x << 13; x ^= x >> 7; x ^= x << 17;
+                                if x % 3 == 0 { std::thread::yield_now(); }
+                                let w: Vec<&str> = ws.iter().map(|s| s.as_str()).collect();
+                                let o = if a.dead { "dead".to_string() } else {
+                                    match catch_unwind(AssertUnwindSafe(|| a.exec_line(&w))) {
+                                        Ok(o) => format!("{o}{}", a.drain_cb()),
+                                        Err(p) => { a.dead = true; format!("PANIC {}", classify(&crate::panic_message(&*p))) }
+                                    }
+                                };
+                                res.push((j, o));
+                            }
+                            res
+                        }).unwrap());
+                    }
+                    for h in hs { for (j, o) in h.join().unwrap_or_default() { outs[j] = o; } }
+                }
+                let _ = tx.send(outs);
+            }).map_err(|e| e.to_string())?;
+            match rx.recv_timeout(std::time::Duration::from_millis(20000)) {
+                Ok(r) => { for l in r { writeln!(out, "{l}").map_err(|e| e.to_string())?; } }
+                Err(_) => { for _ in 0..n { writeln!(out, "HANG").map_err(|e| e.to_string())?; } }
+            }
+        }
+        if sep { writeln!(out, "---").map_err(|e| e.to_string())?; }
+        Ok(())
+    };
+    for line in stdin.lock().lines() {
+        let line = line.map_err(|e| e.to_string())?;
+        let ws: Vec<String> = line.split_whitespace().map(|s| s.to_string()).collect();
+        if ws.len() == 1 && ws[0] == "---" { flush(&mut cur, true, &mut out)?; continue; }
+        let k = match ws.first().map(|s| s.as_str()) { Some("@0") => 0, Some("@1") => 1, _ => 0 };
+        cur.push((k, ws[1.min(ws.len())..].to_vec()));
+    }
+    flush(&mut cur, false, &mut out)?;
+    out.flush().ok();
+    Ok(())
+}
